@@ -270,4 +270,8 @@ def length_boundary_documents(thorough=False):
         out.append(("bad-line-%d" % L, "Feature: f\n Scenario: s\n  Given x\n  Examples:\n%s\n  Then y\n" % w))
         out.append(("bad-line-indented-%d" % L, "%s\nFeature: f\n   \t%s  \n" % (w, w)))
         out.append(("bad-tag-%d" % L, "Feature: f\n @%s x\n Scenario: s\n" % w.replace(" ", "_")))
+    if thorough:
+        # one physical line beyond every plausible read-buffer bound (8 Mi characters and a bit), with located elements below it
+        for n in ((8 << 20) + 10, (16 << 20) + 3):
+            out.append(("line-of-%d-characters" % n, "Feature: f\n " + "d" * n + "\n @t\n Scenario: s\n  Given x\n   | a | b |\n garbage below\n"))
     return out
